@@ -251,4 +251,38 @@ void h_b_history()
 
 #endif
 
+
+// -------------------------------------------------------------- bounded: copy / assignment incl. self (<= 1 entry)
+#ifndef NV_POOLMAP
+void h_b_assign()
+{
+  NV_INPUT(long, k1v); NV_INPUT(long, v1v); NV_INPUT(long, k2v); NV_INPUT(long, v2v); NV_INPUT(bool, self); NV_INPUT(bool, srcEmpty); NV_INPUT(bool, dstEmpty);
+#ifdef NV_ALIAS
+  NV_ASSUME(self == (NV_ALIAS != 0));
+#endif
+  HM a(NV_CAP), c(NV_CAP);
+  HIter e;
+#ifdef NV_HASHSET
+  if(!srcEmpty) a.append(k1v);
+  if(!dstEmpty) c.append(k2v);
+#else
+  if(!srcEmpty) a.append(k1v, v1v);
+  if(!dstEmpty) c.append(k2v, v2v);
+#endif
+#if defined(NV_ALIAS) && NV_ALIAS
+  HM* src = &c;
+#else
+  HM* src = &a;
+#endif
+  c = *src;
+  bool wantEmpty = self ? dstEmpty : srcEmpty;
+  long wk = self ? k2v : k1v, wv = self ? v2v : v1v;
+  bool ok = c.size() == (wantEmpty ? 0u : 1u) && c.isEmpty() == wantEmpty;
+  if(!wantEmpty) ok = ok && c._begin.item != &c.endItem && c._begin.item->key == wk && NV_VALUE_IS(c._begin.item, wv) && c._begin.item->next == &c.endItem && c.contains(wk);
+  NV_CHECK(ok, "operator=: contents of the source (assignment to itself keeps the contents)");
+  if(self && !dstEmpty) { NV_REACH("b_assign.self"); }
+  if(!self && !srcEmpty && !dstEmpty) { NV_REACH("b_assign.other"); }
+}
+#endif
+
 } // extern "C"
